@@ -278,7 +278,7 @@ void register_c05(std::vector<Profile>& v)
   p.assumptions = {"non-decreasing clock (no backward steps are injected: they contradict C03's thread order)",
                    "TSC runs: inversions up to 3.4 us (RdtscClock's accepted resync window) are not demanded",
                    "a statement counts as possibly late when its call returned more than the grace period after its timestamp (over-estimates the enqueue time)"};
-  p.quick_runs = 3000;
+  p.quick_runs = 20000;
   p.thorough_runs = 400000;
   v.push_back(p);
 }
